@@ -37,13 +37,21 @@ def make_script(rng, n, names=None):
     return [metam.random_op(rng, fail_bits=True, names=names) for _ in range(n)]
 
 
-def mk_scn(sc):
-    holder = {}
+HOLDER = {}
 
-    def tick():
-        holder['s'].clock.time += 1
-    scn = sx.Scenario(sc, n_rec=0, initial_context={'tick': tick})
-    holder['s'] = scn
+
+def _tick():
+    HOLDER['s'].clock.time += 1
+
+
+# ONE initial-context mapping reused for every interpreter of this process, as a client running the same statechart
+# several times would do: a run must not depend on what earlier runs did with it
+SHARED_CONTEXT = {'tick': _tick, 'k': 0}
+
+
+def mk_scn(sc):
+    scn = sx.Scenario(sc, n_rec=0, initial_context=SHARED_CONTEXT)
+    HOLDER['s'] = scn
     return scn
 
 
@@ -99,8 +107,8 @@ def main(tier, seed):
     rng = random.Random(seed * 9176 + 7)
     n_charts = 400 if tier == 'quick' else 4000
     profile = genchart.Profile(p_hist_target=0.15, p_orth=0.4, p_history=0.3, p_contract=0.25, same_source_boost=0.4, p_prio=0.5,
-                               n_trans=(4, 14), max_states=13,
-                               alt=[(0.25, genchart.parallel_profile(p_entry_code=0.6, p_action=0.7)), (0.15, genchart.nested_parallel_chart)])
+                               n_trans=(4, 14), max_states=13, use_k=True,
+                               alt=[(0.25, genchart.parallel_profile(p_entry_code=0.6, p_action=0.7, use_k=True)), (0.15, genchart.nested_parallel_chart)])
     n_viol = 0
     jobs = []
     refs = []
